@@ -928,3 +928,103 @@ pub fn fuzz_entry(data: &[u8]) -> Res {
         }
     })
 }
+
+// ---------------------------------------------------------------------------------------------
+// Text arriving through `impl Display` in several fragments
+
+/// A `Display` that writes its text in separate `write_str` calls (as numbers, composite types and
+/// `format_args!` with runtime arguments do). Fragment boundaries are char boundaries.
+pub struct Chunked<'a> {
+    pub text: &'a str,
+    pub cuts: &'a [usize],
+}
+
+impl std::fmt::Display for Chunked<'_> {
+    fn fmt(&self, f: &mut std::fmt::Formatter) -> std::fmt::Result {
+        let mut last = 0;
+        for &c in self.cuts {
+            let mut c = c.min(self.text.len());
+            while !self.text.is_char_boundary(c) {
+                c -= 1;
+            }
+            if c > last {
+                f.write_str(&self.text[last..c])?;
+                last = c;
+            }
+        }
+        f.write_str(&self.text[last..])
+    }
+}
+
+/// The `impl Display` entry points must give the same verdict however the text is cut into fragments
+/// (judged by the same recognisers as the one-piece text), and never panic.
+pub fn check_chunked_text(text: &str, cuts: &[usize], cx: &mut Cx) -> Res {
+    let c = Chunked { text, cuts };
+    cx.class_if(cuts.len() >= 1, "chunked:>=2-fragments");
+    cx.class_if(text.len() > 32, "chunked:longer-than-every-buffer");
+    let ts_class = match ref_timestamp(text) {
+        Class::MustAccept((secs, nanos)) => Class::MustAccept(ts(secs, nanos).expect("reference in range")),
+        Class::MustReject => Class::MustReject,
+        Class::DontCare => Class::DontCare,
+    };
+    judge(cx, "Timestamp::parse(chunked)", &text, &ts_class, catch(|| Timestamp::parse(&c).ok()), None::<()>)?;
+    judge(
+        cx,
+        "Value(chunked display).cast::<Timestamp>",
+        &text,
+        &ts_class,
+        catch(|| emit::Value::from_display(&c).cast::<Timestamp>()),
+        None::<()>,
+    )?;
+    let tid = match ref_id(text.as_bytes(), 32) {
+        Class::MustAccept(v) => Class::MustAccept(TraceId::from_u128(v).unwrap()),
+        _ => Class::MustReject,
+    };
+    judge(cx, "TraceId::try_from_hex(chunked)", &text, &tid, catch(|| TraceId::try_from_hex(&c).ok()), None::<()>)?;
+    judge(cx, "Value(chunked display).cast::<TraceId>", &text, &tid, catch(|| emit::Value::from_display(&c).cast::<TraceId>()), None::<()>)?;
+    let sid = match ref_id(text.as_bytes(), 16) {
+        Class::MustAccept(v) => Class::MustAccept(SpanId::from_u64(v as u64).unwrap()),
+        _ => Class::MustReject,
+    };
+    judge(cx, "SpanId::try_from_hex(chunked)", &text, &sid, catch(|| SpanId::try_from_hex(&c).ok()), None::<()>)?;
+    judge(cx, "Value(chunked display).cast::<SpanId>", &text, &sid, catch(|| emit::Value::from_display(&c).cast::<SpanId>()), None::<()>)?;
+    // levels, kinds and paths read the whole formatted text: same recognisers
+    let lvl = ref_level(text);
+    judge(cx, "Value(chunked display).cast::<Level>", &text, &lvl, catch(|| emit::Value::from_display(&c).cast::<Level>()), None::<()>)?;
+    let kind = ref_kind(text);
+    judge(cx, "Value(chunked display).cast::<Kind>", &text, &kind, catch(|| emit::Value::from_display(&c).cast::<Kind>()), None::<()>)?;
+    Ok(())
+}
+
+/// Numbers cast to ids / timestamps (floats and integers format in several fragments).
+pub fn check_number_casts(f: f64, i: i128, cx: &mut Cx) -> Res {
+    for what in ["f64", "i128", "u64"] {
+        let r = catch(|| match what {
+            "f64" => (
+                emit::Value::from(f).cast::<SpanId>().is_some(),
+                emit::Value::from(f).cast::<TraceId>().is_some(),
+                emit::Value::from(f).cast::<Timestamp>().is_some(),
+            ),
+            "i128" => (
+                emit::Value::from(i).cast::<SpanId>().is_some(),
+                emit::Value::from(i).cast::<TraceId>().is_some(),
+                emit::Value::from(i).cast::<Timestamp>().is_some(),
+            ),
+            _ => (
+                emit::Value::from(i as u64).cast::<SpanId>().is_some(),
+                emit::Value::from(i as u64).cast::<TraceId>().is_some(),
+                emit::Value::from(i as u64).cast::<Timestamp>().is_some(),
+            ),
+        });
+        match r {
+            Err(p) => cx.fail(format!("number-cast/panic/{what}"), format!("casting {f} / {i} ({what}) to an id or timestamp: {}", p.msg))?,
+            Ok((_, _, ts_ok)) => {
+                // no number is an RFC 3339 text
+                if ts_ok {
+                    cx.fail("number-cast/timestamp-from-number", format!("{what} {f}/{i} cast to a Timestamp"))?;
+                }
+            }
+        }
+    }
+    Ok(())
+}
